@@ -131,7 +131,7 @@ class ModuleAstInfo:
             iter(
                 scope
                 for scope in nodes_of_class(self.module_ast, SCOPE_CLASSES)
-                if scope_line_range(scope)[0] == lineno
+                if self._first_line(scope) == lineno
             ),
             None,
         )
@@ -140,6 +140,23 @@ class ModuleAstInfo:
             return None
 
         return AstInfo(ast=cast("ScopeNode", ast_scope), module=self)
+
+    @staticmethod
+    def _first_line(scope: ast.AST) -> int:
+        """Get the line on which the code object of a scope starts.
+
+        The code object of a decorated function or class starts at its first decorator.
+
+        Args:
+            scope: The AST node of the scope.
+
+        Returns:
+            The first line number of the code object that is compiled from the scope.
+        """
+        return min(
+            (decorator.lineno for decorator in getattr(scope, "decorator_list", ())),
+            default=scope_line_range(scope)[0],
+        )
 
     @classmethod
     def _find_lines_in_source_code(
